@@ -1,6 +1,9 @@
 import Sudachi.Proofs.Edit
 import Sudachi.Proofs.EditAccess
 import Sudachi.Proofs.EditExact
+import Sudachi.Proofs.EditGhost
+import Sudachi.Proofs.EditTok
+import Sudachi.Props.C01
 /-!
 # C08 — Code-point offsets agree with byte offsets; the offset map is monotone and anchored
 
@@ -346,60 +349,291 @@ example :
     (commitAllV .final (identFrom 0 [0x61]) [[⟨0, 1, []⟩]]).map snds = some [0] := by
   decide
 
-/-- **unreplaced bytes map to themselves: start exact, the image covers the byte** (last clause of the property).
-`resolve_edits` is polymorphic in the text elements, so the same batches can be run on TAGGED bytes (`tagIdent`: byte `k`
-of the original tagged `some k`; `tagBatches`: every replacement byte tagged `none`); the tagged run exists, and erasing
-the tags gives the untagged buffer `l` (same map values).  For every entry tagged `some k` - byte `k` of the original,
-copied by every batch, never written by a replacement -: it still carries the byte `o[k]`, its map value is `k` itself (or 0:
-"the first entry MUST be 0", i.e. deleted text before the first character attaches to it), the NEXT entry's value is at
-least `k + 1` - the image `[m2o[i], m2o[i+1])` of the byte contains the byte -, no entry of the map has a value strictly
-between the two (what lies between was deleted or replaced), and when the next entry is itself an unreplaced byte `k'` the
-image ends EXACTLY at `k'` (two surviving bytes that are neighbours in the rewritten text: everything between them is gone
-and attaches to the first).
-FULL statement (DESIGN §3 C08 `unreplaced_exact`), NOT proved: the next value is EXACTLY `k + 1` unless the bytes directly
-after `k` were deleted, in which case it is the end of that deletion run - this needs the deletions as ghost state; it is
-decided by the oracle `c08:unreplaced` (exact end unless `del_after`) and the correspondence on every `edits` line. -/
-theorem unreplaced_exact_partial (o : List Nat) (bs : List (List (Edit Nat))) (lv : LenV) (l : List (P Nat))
+/-! ## `unreplaced_exact`: deletions as ghost state
+
+`EditG.commitAllVG` (`Model/EditGhost.lean`) is the SAME loop as `resolve_edits` run on bytes that carry a ghost `Tag`
+(`org = some k`: byte `k` of the original, never written by a replacement; `att = some d`: a deletion run is attached after the
+byte and its image in the original ends at `d`; `lead`: the byte has been the first entry of a batch result).  The ghost state is
+write-only; erasing it gives the executed buffer (`mapP Prod.fst lg = l`).  `EditG.Deleted (identFrom 0 o) bs j`: the original
+offset `j` lies in the image `[m2o[s], m2o[e])` of an edit `s..e ↦ ""` of one of the batches (`m2o` = the map that batch is applied
+to).  `EditG.startOf t k = if t.lead then 0 else k`, `EditG.endOf t k = match t.att with | none => k + 1 | some d => d`. -/
+
+/-- **`unreplaced_exact`** (last clause of the property, FULL statement of DESIGN §3 C08; any number of successive batches, either
+length guard).  The ghost-tagged run of the executed batches exists and erases to the executed buffer `l` (same bytes, same map
+values).  For EVERY entry `i` of it that carries an unreplaced byte (`org = some k`: byte `k` of the original text, copied by
+every batch, never written by a replacement):
+* it is not the sentinel entry (`i + 1` is an entry) and still carries the byte `o[k]`;
+* its image `[m2o[i], m2o[i+1])` STARTS at its own offset `k` - or at 0 if it has become the first entry of a batch result
+  (`lead`), and then every original offset before `k` lies in the image of a deleting edit (a leading deletion);
+* its image ENDS EXACTLY at its own end `k + 1`, unless a deletion run is attached after it (`att = some d`), in which case it
+  ends exactly at `d ≥ k + 1`, the end of that run, and every original offset in `[k + 1, d)` lies in the image of a deleting
+  edit;
+* no map value lies strictly inside the image.
+The property's sentence "maps each unreplaced character to itself" is the special case "not adjacent to a deletion"
+(`unreplaced_maps_to_itself` below). -/
+theorem unreplaced_exact (o : List Nat) (bs : List (List (Edit Nat))) (lv : LenV) (l : List (P Nat))
     (hr : Reached o bs lv l) :
-    ∃ lt : List (P (Nat × Option Nat)),
-      commitAllV lv (tagIdent o) (tagBatches bs) = some lt ∧ mapP Prod.fst lt = l ∧ snds lt = snds l ∧
-      ∀ (i : Nat) (h : i + 1 < lt.length) (b k : Nat), (lt[i]).1 = some (b, some k) →
-        (∃ hk : k < o.length, b = o[k]) ∧ ((lt[i]).2 = k ∨ (lt[i]).2 = 0) ∧ k + 1 ≤ (lt[i + 1]).2 ∧
-        (∀ (j : Nat) (hj : j < lt.length), ¬ ((lt[i]).2 < (lt[j]).2 ∧ (lt[j]).2 < (lt[i + 1]).2)) ∧
-        (∀ b' k', (lt[i + 1]).1 = some (b', some k') → (lt[i + 1]).2 = k') := by
-  obtain ⟨lt, h1, h2, h3, h4, h5⟩ := tagged_run o bs lv l hr.2.2.1 hr.2.2.2
-  refine ⟨lt, h1, h2, h3, ?_⟩
-  intro i h b k hb
-  obtain ⟨g1, g2⟩ := h5 lt[i] (List.getElem_mem _) b k hb
-  have g3 := chain_getElem lt h4 i h (b, some k) k hb rfl
-  refine ⟨g1, g2, g3, ?_, ?_⟩
-  rotate_left
-  · intro b' k' hb'
-    rcases (h5 lt[i + 1] (List.getElem_mem _) b' k' hb').2 with e | e
-    · exact e
-    · omega
+    ∃ lg : List (P EditG.GB),
+      EditG.commitAllVG lv (EditG.ghostIdent o) bs = some lg ∧ mapP Prod.fst lg = l ∧ snds lg = snds l ∧
+      ∀ (i : Nat) (hi : i < lg.length) (b : Nat) (t : EditG.Tag) (k : Nat), (lg[i]).1 = some (b, t) → t.org = some k →
+        ∃ h : i + 1 < lg.length,
+          (∃ hk : k < o.length, b = o[k]) ∧
+          (lg[i]).2 = EditG.startOf t k ∧
+          (lg[i + 1]).2 = EditG.endOf t k ∧
+          k + 1 ≤ EditG.endOf t k ∧
+          (t.lead = true → ∀ j, j < k → EditG.Deleted (identFrom 0 o) bs j) ∧
+          (∀ d, t.att = some d → ∀ j, k + 1 ≤ j → j < d → EditG.Deleted (identFrom 0 o) bs j) ∧
+          (∀ (j : Nat) (hj : j < lg.length), ¬ ((lg[i]).2 < (lg[j]).2 ∧ (lg[j]).2 < (lg[i + 1]).2)) := by
+  obtain ⟨lg, h1, h2, hinvg⟩ := EditG.ghost_run o bs lv l hr.2.2.1 hr.2.2.2
+  have h3 : snds lg = snds l := by rw [← h2, snds_mapP]
+  refine ⟨lg, h1, h2, h3, ?_⟩
+  intro i hi b t k hb hk
+  have hinv := hr.inv
+  -- an entry that carries a byte is not the sentinel entry
+  have hi' : i + 1 < lg.length := by
+    obtain ⟨body, hbody, _⟩ := hinv.shape
+    have hl2 : lg.length = body.length + 1 := by rw [← mapP_length Prod.fst lg, h2, hbody]; simp
+    rcases Nat.lt_or_ge (i + 1) lg.length with h' | h'
+    · exact h'
+    · exfalso
+      have hib : i = body.length := by omega
+      have h4 : (mapP Prod.fst lg)[i]? = some ((none : Option Nat), o.length) := by rw [h2, hbody, hib]; simp
+      unfold mapP at h4
+      rw [List.getElem?_map, List.getElem?_eq_getElem hi] at h4
+      simp [hb] at h4
+  refine ⟨hi', ?_⟩
+  obtain ⟨g1, g2⟩ := hinvg.val lg[i] (List.getElem_mem _) b t k hb hk
+  have g3 : (lg[i + 1]).2 = EditG.endOf t k := chain_getElem lg hinvg.chain i hi' b t k hb hk
+  have gcov := hinvg.cov lg[i] (List.getElem_mem _) b t k
+  have g4 : k + 1 ≤ EditG.endOf t k := by
+    cases hat : t.att with
+    | none => simp [EditG.endOf, hat]
+    | some d => simpa [EditG.endOf, hat] using (gcov d hb hk hat).1
+  refine ⟨g1, g2, g3, g4, fun hl => hinvg.lead lg[i] (List.getElem_mem _) b t k hb hk hl,
+    fun d hd => (gcov d hb hk hd).2, ?_⟩
   intro j hj ⟨c1, c2⟩
-  have hm : Mono (snds lt) := by rw [h3]; exact hr.inv.mono
+  have hm : Mono (snds lg) := by rw [h3]; exact hinv.mono
   have hp := List.pairwise_iff_getElem.mp hm
-  have hv : ∀ (a : Nat) (ha : a < lt.length), (snds lt)[a]'(by simpa [snds] using ha) = (lt[a]).2 := by
+  have hv : ∀ (a : Nat) (ha : a < lg.length), (snds lg)[a]'(by simpa [snds] using ha) = (lg[a]).2 := by
     intro a ha; simp [snds]
   rcases Nat.lt_or_ge i j with hij | hij
   · rcases Nat.lt_or_ge (i + 1) j with h' | h'
-    · have := hp (i + 1) j (by simpa [snds] using h) (by simpa [snds] using hj) h'
-      rw [hv _ h, hv _ hj] at this; omega
+    · have := hp (i + 1) j (by simpa [snds] using hi') (by simpa [snds] using hj) h'
+      rw [hv _ hi', hv _ hj] at this; omega
     · have : j = i + 1 := by omega
       subst this; omega
   · rcases Nat.lt_or_ge j i with h' | h'
-    · have := hp j i (by simpa [snds] using hj) (by simp [snds]; omega) h'
-      rw [hv _ hj, hv _ (by omega)] at this; omega
+    · have := hp j i (by simpa [snds] using hj) (by simpa [snds] using hi) h'
+      rw [hv _ hj, hv _ hi] at this; omega
     · have : j = i := by omega
       subst this; omega
 
-/-- non-vacuity of the tagged run: `ab`, batch 1 deletes `a`, batch 2 inserts `xy` before `b`: the entry of `b` is tagged
-`some 1`, its value was forced to 0 by the first batch; the inserted bytes are tagged `none` -/
+/-- **"maps each unreplaced character to itself"**, the property's own sentence, as the special case "not adjacent to a
+deletion" of `unreplaced_exact`: an unreplaced byte `k` with no deletion run attached after it (`att = none`) that has not
+become a first entry after a leading deletion (`lead = false`, or it is byte 0 itself) has the image `[k, k + 1)` - exactly
+itself.  For a character (all its bytes unreplaced and adjacent, edits being on character boundaries) the images of its bytes
+tile its own byte range. -/
+theorem unreplaced_maps_to_itself (o : List Nat) (bs : List (List (Edit Nat))) (lv : LenV) (l : List (P Nat))
+    (hr : Reached o bs lv l) (lg : List (P EditG.GB)) (hg : EditG.commitAllVG lv (EditG.ghostIdent o) bs = some lg)
+    (i : Nat) (hi : i < lg.length) (b : Nat) (t : EditG.Tag) (k : Nat) (hb : (lg[i]).1 = some (b, t)) (hk : t.org = some k)
+    (hatt : t.att = none) (hlead : t.lead = false ∨ k = 0) :
+    ∃ h : i + 1 < lg.length, (lg[i]).2 = k ∧ (lg[i + 1]).2 = k + 1 ∧ valAt l i = k ∧ valAt l (i + 1) = k + 1 := by
+  obtain ⟨lg', h1, h2, h3, h4⟩ := unreplaced_exact o bs lv l hr
+  have : lg' = lg := by rw [h1] at hg; exact Option.some.inj hg
+  subst this
+  obtain ⟨h, _, g2, g3, _⟩ := h4 i hi b t k hb hk
+  have e1 : (lg'[i]).2 = k := by
+    rw [g2]
+    rcases hlead with hl | hl
+    · simp [EditG.startOf, hl]
+    · subst hl; simp [EditG.startOf]
+  have e2 : (lg'[i + 1]).2 = k + 1 := by rw [g3]; simp [EditG.endOf, hatt]
+  have hv : ∀ a, valAt l a = valAt lg' a := by intro a; rw [← h2, valAt_mapP]
+  refine ⟨h, e1, e2, ?_, ?_⟩
+  · rw [hv, valAt_eq lg' i hi]; exact e1
+  · rw [hv, valAt_eq lg' (i + 1) h]; exact e2
+
+/-- **without deletions every unreplaced byte maps exactly to itself**: when no edit of any batch has an empty replacement, the
+image of every byte that no replacement wrote is `[k, k + 1)` (nothing can be attached, nothing can be forced). -/
+theorem no_deletion_exact (o : List Nat) (bs : List (List (Edit Nat))) (lv : LenV) (l : List (P Nat))
+    (hr : Reached o bs lv l) (hnd : ∀ es ∈ bs, ∀ ed ∈ es, ed.w ≠ [])
+    (lg : List (P EditG.GB)) (hg : EditG.commitAllVG lv (EditG.ghostIdent o) bs = some lg)
+    (i : Nat) (hi : i < lg.length) (b : Nat) (t : EditG.Tag) (k : Nat) (hb : (lg[i]).1 = some (b, t)) (hk : t.org = some k) :
+    ∃ h : i + 1 < lg.length, (lg[i]).2 = k ∧ (lg[i + 1]).2 = k + 1 := by
+  have hno : ∀ (bs' : List (List (Edit Nat))) (l' : List (P Nat)) (j : Nat), (∀ es ∈ bs', ∀ ed ∈ es, ed.w ≠ []) →
+      ¬ EditG.Deleted l' bs' j := by
+    intro bs'
+    induction bs' with
+    | nil => intro l' j _ h; exact h
+    | cons es rest ih =>
+      intro l' j hn h
+      rcases h with ⟨ed, hed, hw, _⟩ | h
+      · exact hn es (by simp) ed hed hw
+      · exact ih _ j (fun es' he => hn es' (by simp [he])) h
+  obtain ⟨lg', h1, h2, h3, h4⟩ := unreplaced_exact o bs lv l hr
+  have : lg' = lg := by rw [h1] at hg; exact Option.some.inj hg
+  subst this
+  obtain ⟨h, _, g2, g3, g4, g5, g6, _⟩ := h4 i hi b t k hb hk
+  refine ⟨h, ?_, ?_⟩
+  · rw [g2]
+    cases hl : t.lead with
+    | false => simp [EditG.startOf, hl]
+    | true =>
+      have : k = 0 := by
+        rcases Nat.eq_zero_or_pos k with h0 | h0
+        · exact h0
+        · exact absurd (g5 hl 0 h0) (hno bs _ 0 hnd)
+      subst this; simp [EditG.startOf]
+  · rw [g3]
+    cases hat : t.att with
+    | none => simp [EditG.endOf, hat]
+    | some d =>
+      have h5 : k + 1 ≤ d := by simpa [EditG.endOf, hat] using g4
+      rcases Nat.lt_or_ge (k + 1) d with h6 | h6
+      · exact absurd (g6 d hat (k + 1) (Nat.le_refl _) h6) (hno bs _ (k + 1) hnd)
+      · simp only [EditG.endOf, hat]; omega
+
+/-- **two unreplaced bytes that are neighbours in the rewritten text**: the second has never been forced to 0 and its own offset
+`k'` is exactly where the image of the first ends - `k' = k + 1` (neighbours in the original too) unless a deletion run is attached
+after the first, and then everything in between, `[k + 1, k')`, lies in the image of deleting edits.  (This is the character-level
+reading: the bytes of an unreplaced character, and two unreplaced characters that follow each other, tile their own original range.) -/
+theorem unreplaced_neighbours (o : List Nat) (bs : List (List (Edit Nat))) (lv : LenV) (l : List (P Nat))
+    (hr : Reached o bs lv l) (lg : List (P EditG.GB)) (hg : EditG.commitAllVG lv (EditG.ghostIdent o) bs = some lg)
+    (i : Nat) (hi : i + 1 < lg.length) (b b' : Nat) (t t' : EditG.Tag) (k k' : Nat)
+    (hb : (lg[i]).1 = some (b, t)) (hk : t.org = some k) (hb' : (lg[i + 1]).1 = some (b', t')) (hk' : t'.org = some k') :
+    t'.lead = false ∧ k' = EditG.endOf t k ∧ k + 1 ≤ k' ∧ (lg[i + 1]).2 = k' ∧
+      (t.att = none → k' = k + 1) ∧ (∀ j, k + 1 ≤ j → j < k' → t.att ≠ none ∧ EditG.Deleted (identFrom 0 o) bs j) := by
+  obtain ⟨lg', h1, h2, h3, h4⟩ := unreplaced_exact o bs lv l hr
+  have : lg' = lg := by rw [h1] at hg; exact Option.some.inj hg
+  subst this
+  obtain ⟨_, _, _, g3, g4, _, g6, _⟩ := h4 i (by omega) b t k hb hk
+  obtain ⟨_, _, f2, _⟩ := h4 (i + 1) hi b' t' k' hb' hk'
+  have hl : t'.lead = false := by
+    cases hl : t'.lead with
+    | false => rfl
+    | true =>
+      have : (lg'[i + 1]).2 = 0 := by rw [f2]; simp [EditG.startOf, hl]
+      omega
+  have hs : EditG.startOf t' k' = k' := by simp [EditG.startOf, hl]
+  have hkk : k' = EditG.endOf t k := by rw [← g3, f2, hs]
+  refine ⟨hl, hkk, by omega, by rw [f2, hs], ?_, ?_⟩
+  · intro hat; rw [hkk]; simp [EditG.endOf, hat]
+  · intro j hj1 hj2
+    cases hat : t.att with
+    | none =>
+      have : EditG.endOf t k = k + 1 := by simp [EditG.endOf, hat]
+      omega
+    | some d =>
+      have : EditG.endOf t k = d := by simp [EditG.endOf, hat]
+      exact ⟨by simp, g6 d hat j hj1 (by omega)⟩
+
+/-- **what the driver predicts is the map**: the `edits` answer line lists, for the `i`-th byte of the rewritten text whose ghost
+state `t` (`EditG.tagsOf`: the ghost states of the entries in order - the sentinel entry has none, so position `i` in that list IS
+byte offset `i`) says "unreplaced byte `k`", the image `[startOf t k, endOf t k)` computed from the ghost state alone
+(`EditG.predicted`); that pair is `[m2o[i], m2o[i+1])` of the EXECUTED buffer.  (The harness compares the same pair with
+`get_original_index` on the real buffer: the kernel-checked half of the `uimg=` tie.) -/
+theorem predicted_image_is_map (o : List Nat) (bs : List (List (Edit Nat))) (lv : LenV) (l : List (P Nat))
+    (hr : Reached o bs lv l) (lg : List (P EditG.GB)) (hg : EditG.commitAllVG lv (EditG.ghostIdent o) bs = some lg)
+    (i : Nat) (t : EditG.Tag) (k : Nat) (ht : (EditG.tagsOf lg)[i]? = some t) (hk : t.org = some k) :
+    i + 1 ≤ (textOf l).length ∧ valAt l i = EditG.startOf t k ∧ valAt l (i + 1) = EditG.endOf t k := by
+  obtain ⟨lg', h1, h2, h3, h4⟩ := unreplaced_exact o bs lv l hr
+  have : lg' = lg := by rw [h1] at hg; exact Option.some.inj hg
+  subst this
+  have hinv := hr.inv
+  have hshape : Shape o.length (mapP Prod.fst lg') := by rw [h2]; exact hinv.shape
+  obtain ⟨body, s, hlg, hs, hall⟩ := EditG.shape_of_erase lg' o.length hshape
+  subst hlg
+  obtain ⟨hi, b, hb⟩ := EditG.tagsOf_getElem body s hall hs i t ht
+  have hi' : i < (body ++ [s]).length := by simp; omega
+  have hget : (body ++ [s])[i] = body[i] := List.getElem_append_left hi
+  obtain ⟨h, _, g2, g3, _⟩ := h4 i hi' b t k (by rw [hget]; exact hb) hk
+  have hv : ∀ a, valAt l a = valAt (body ++ [s]) a := by intro a; rw [← h2, valAt_mapP]
+  have hlen := shape_length hinv.shape
+  have hl2 : l.length = body.length + 1 := by rw [← h2, mapP_length]; simp
+  refine ⟨by omega, ?_, ?_⟩
+  · rw [hv, valAt_eq _ i hi']; exact g2
+  · rw [hv, valAt_eq _ (i + 1) h]; exact g3
+
+/-- non-vacuity of the ghost-tagged run: `abcd`, batch 1 deletes `a` (leading deletion) and `c`, batch 2 inserts `xy` before `b`:
+`b` is tagged `1`, has been a first entry (`lead`, value 0: the deleted `a` attaches to it) and the deleted `c` is attached after
+it (`att = some 3`: its image ends at 3, not at 2); `d` maps to itself; the inserted bytes are tagged "written by a
+replacement".  Predicted images `[0, 3)` and `[3, 4)` = the map values. -/
 example :
-    commitAllV .final (tagIdent [0x61, 0x62]) (tagBatches [[⟨0, 1, []⟩], [⟨0, 0, [0x78, 0x79]⟩]])
-      = some [(some (0x78, none), 0), (some (0x79, none), 0), (some (0x62, some 1), 0), (none, 2)] := by
+    EditG.commitAllVG .final (EditG.ghostIdent [0x61, 0x62, 0x63, 0x64]) [[⟨0, 1, []⟩, ⟨2, 3, []⟩], [⟨0, 0, [0x78, 0x79]⟩]]
+      = some [(some (0x78, ⟨none, none, true⟩), 0), (some (0x79, ⟨none, none, false⟩), 0),
+              (some (0x62, ⟨some 1, some 3, true⟩), 0), (some (0x64, ⟨some 3, none, false⟩), 3), (none, 4)] ∧
+    EditG.Deleted (identFrom 0 [0x61, 0x62, 0x63, 0x64]) [[⟨0, 1, []⟩, ⟨2, 3, []⟩], [⟨0, 0, [0x78, 0x79]⟩]] 2 ∧
+    EditG.Deleted (identFrom 0 [0x61, 0x62, 0x63, 0x64]) [[⟨0, 1, []⟩, ⟨2, 3, []⟩], [⟨0, 0, [0x78, 0x79]⟩]] 0 := by
+  refine ⟨by decide, Or.inl ⟨⟨2, 3, []⟩, by simp, rfl, by decide, by decide⟩, Or.inl ⟨⟨0, 1, []⟩, by simp, rfl, by decide, by decide⟩⟩
+
+/-- non-vacuity of `no_deletion_exact`'s hypothesis and of "the image may end later only next to a deletion": `宇宙人` with the
+second character replaced by `x` (no deletion): the bytes of `宇` and `人` map to themselves; the replacement byte has the image
+`[3, 6)` -/
+example :
+    (EditG.commitAllVG .final (EditG.ghostIdent [0xE5, 0xAE, 0x87, 0xE5, 0xAE, 0x99, 0xE4, 0xBA, 0xBA]) [[⟨3, 6, [0x78]⟩]]).map
+      (fun lg => (snds lg, EditG.predicted 0 (EditG.tagsOf lg)))
+      = some ([0, 1, 2, 3, 6, 7, 8, 9], ["0:0:1", "1:1:2", "2:2:3", "4:6:7", "5:7:8", "6:8:9"]) ∧
+    (∀ es ∈ [[(⟨3, 6, [0x78]⟩ : Edit Nat)]], ∀ ed ∈ es, ed.w ≠ []) := by
   decide
+
+/-! ## the whole tokenizer: code-point offsets of every morpheme, no `hb`/`he` -/
+
+open Total Partition Oov in
+/-- **`tokenizer_morpheme_codepoints`** (first sentence of the property for the WHOLE of `do_tokenize`; `C01.tokens_partition_original`
+composed with `slice_agree`'s arithmetic - the hypotheses `hb`/`he` of `routes_agree`/`morpheme_accessors_total` are gone: that the
+byte range of a morpheme is the `mod_c2b` image of its character range is what C01's `PathOk` carries through the lattice, the
+rewrite stage and `split_path`).  For EVERY morpheme `m` of EVERY result `Total.tokenize` returns (every mode, dictionary, plugin
+stack; hypotheses exactly those of `C01.tokens_partition_original`): all five accessors are defined (`Total.access` = `begin`,
+`end`, `begin_c`, `end_c`, `surface` with every index check and debug assertion), `begin ≤ end ≤ |original|` on character
+boundaries of the ORIGINAL, `begin_c`/`end_c` are the numbers of code points of the original before `begin()`/`end()`, character
+number `begin_c` (`end_c`) of the original begins at byte `begin()` (`end()`) - slicing the original by code points IS slicing it
+by bytes -, `end_c - begin_c` is the number of code points of that slice (Python `len(m)`), and `surface()` is that slice
+(`sb = begin`, `se = end`: the byte route gives the same range). -/
+theorem tokenizer_morpheme_codepoints (lv : LenV) (cfg : Cfg) (orig : List Nat) (horig : BoOf orig 0)
+    (hplug : ∀ p ∈ cfg.inputPlugins, PluginOk orig p)
+    (hutf : ∀ l0 l chars, startBuild orig = some l0 → rewriteInput lv cfg.inputPlugins l0 = .ok l →
+      Wire.utf8Decode (textOf l) = some chars → chars.length = nchars (textOf l))
+    (rv : Oov.Variant) (bowFix : Bool) (tab : List (Nat × Nat))
+    (hmk : ∀ chars, Oov.mkBufV rv bowFix tab chars = some (cfg.mkBuf chars))
+    (hrowsz : ∀ chars nodes, Reaches lv cfg orig chars → Oov.buildLattice cfg.providers cfg.lex (cfg.mkBuf chars) = .ok nodes →
+      ∀ e, (nodes.map toVit).countP (fun n => n.e == e) ≤ 65535)
+    (hrew : ∀ (tb2c tc2b : List Nat) (nc nb : Nat) path path', PathOk tb2c tc2b nc nb path → cfg.rewrite path = .ok path' →
+      PathOk tb2c tc2b nc nb (path'.map (·.1)))
+    (r : Result) (h : tokenize .d6fix lv cfg orig = .ok r) :
+    ∀ m ∈ r.morphs, ∃ a, access orig r.tables m = .ok a ∧
+      a.b ≤ a.e ∧ a.e ≤ orig.length ∧ BoOf orig a.b ∧ BoOf orig a.e ∧
+      a.bc = nchars (orig.take a.b) ∧ a.ec = nchars (orig.take a.e) ∧
+      (c2b orig)[a.bc]? = some a.b ∧ (c2b orig)[a.ec]? = some a.e ∧
+      a.ec - a.bc = nchars (slice orig a.b a.e) ∧
+      a.sb = a.b ∧ a.se = a.e := by
+  exact codepoints_of_partition orig r
+    (C01.tokens_partition_original lv cfg orig horig hplug hutf rv bowFix tab hmk hrowsz hrew r h)
+
+open Total Partition Oov in
+/-- **`tokenizer_morpheme_codepoints` for the configuration a `pipe` case line is executed with** (`TotalIO.mkCfg`: the SAME instance
+of the SAME function the driver runs against the real tokenizer in C03's correspondence stream; `C01.pipe_tokens_partition`
+composed): `hmk` and `hrew` are discharged there (buffer over the compiled `char.def`, word-info stage with ANY unit table = any
+split mode and any - also ill-formed - split declarations), `hutf` is in its honest form (the rewritten text IS the UTF-8 encoding
+of the characters it decodes to).  Remaining: `horig` (a `&str`), `hplug` (the input-text plugins emit sorted, non-overlapping,
+in-range edits on character starts), `hrowsz` (< 65536 candidates per boundary). -/
+theorem pipe_morpheme_codepoints (lv : LenV) (orig : List Nat) (horig : BoOf orig 0)
+    (plugins : List (List Nat → Outcome (List (Edit Nat)))) (rv : Oov.Variant) (bowFix : Bool)
+    (rs : List CharCat.CatRange) (ps : List Oov.Provider) (lex : List Oov.Word) (conn : Nat → Nat → Int)
+    (units : EditM.NodeRange → List Nat)
+    (hplug : ∀ p ∈ plugins, PluginOk orig p)
+    (hutf : ∀ l0 l chars, startBuild orig = some l0 → rewriteInput lv plugins l0 = .ok l →
+      Wire.utf8Decode (textOf l) = some chars → textOf l = TotalIO.encode chars)
+    (hrowsz : ∀ chars nodes, Reaches lv (TotalIO.mkCfg plugins rv bowFix rs ps lex conn units) orig chars →
+      Oov.buildLattice ps lex (TotalIO.mkBufOf rv bowFix (CharCat.compile rs) chars) = .ok nodes →
+      ∀ e, (nodes.map toVit).countP (fun n => n.e == e) ≤ 65535)
+    (r : Result) (h : tokenize .d6fix lv (TotalIO.mkCfg plugins rv bowFix rs ps lex conn units) orig = .ok r) :
+    ∀ m ∈ r.morphs, ∃ a, access orig r.tables m = .ok a ∧
+      a.b ≤ a.e ∧ a.e ≤ orig.length ∧ BoOf orig a.b ∧ BoOf orig a.e ∧
+      a.bc = nchars (orig.take a.b) ∧ a.ec = nchars (orig.take a.e) ∧
+      (c2b orig)[a.bc]? = some a.b ∧ (c2b orig)[a.ec]? = some a.e ∧
+      a.ec - a.bc = nchars (slice orig a.b a.e) ∧
+      a.sb = a.b ∧ a.se = a.e :=
+  codepoints_of_partition orig r
+    (C01.pipe_tokens_partition lv orig horig plugins rv bowFix rs ps lex conn units hplug hutf hrowsz r h)
 
 end C08
